@@ -30,6 +30,7 @@ import sys
 import re
 import json
 import codecs
+import locale
 import contextlib
 import ssl
 import warnings
@@ -197,6 +198,13 @@ def open_file_obj(f, mode="r"):
         yield f
 
 
+def _check_encodable(f, content):
+    """Raise before a destination path gets truncated if the text can not be
+    encoded the way open(f, "w") is going to encode it."""
+    if six.PY3 and isinstance(f, six.string_types):
+        content.encode(locale.getpreferredencoding(False))
+
+
 def _file_exists(path):
     if path.startswith(("http://", "https://", "ftp://")):
         try:
@@ -298,8 +306,10 @@ class MetadataBase(object):
         # out must not leave a partially written file behind
         content = six.StringIO()
         self.build_file(parser, content)
+        content = content.getvalue()
+        _check_encodable(f, content)
         with open_file_obj(f, "w") as f:
-            f.write(content.getvalue())
+            f.write(content)
 
     def dumps(self):
         """
